@@ -853,9 +853,9 @@ run_race(void *arg)
 // =============================================================================
 // REP side
 // =============================================================================
-enum { P_Q0H0, P_Q0H2, P_Q1H1, P_Q1H2, P_RECV0, P_RECV1, P_SEND0, P_SEND1, P_NLETTER };
+enum { P_Q0H0, P_Q0H2, P_Q1H1, P_Q1H2, P_RECV0, P_RECV1, P_SEND0, P_SEND1, P_DROP0, P_NLETTER };
 static const char *PN[P_NLETTER] = { "p0.req(h0)", "p0.req(h2)", "p1.req(h1)",
-	"p1.req(h2)", "recv0", "recv1", "send0", "send1" };
+	"p1.req(h2)", "recv0", "recv1", "send0", "send1", "p0.reconnect" };
 static const uint32_t HOPW[2] = { 0x00000001u, 0x7f000002u };
 
 typedef struct rpcfg {
@@ -871,13 +871,15 @@ typedef struct rreq {
 	int      nw; // words incl. the request id
 	uint32_t w[3];
 	uint8_t  body[3];
-	int      delivered;
+	int      delivered; // 0 waiting, 1 delivered, 2 optional (its peer left)
+	int      gone;      // its connection was closed after it was written
 } rreq;
 static rreq   RQ[48];
 static int    nrq;
 static int    p_cur[2];     // request index the participant received last
 static int    p_pending[2]; // primary recv aio in flight
 static int    p_fd[2];
+static nng_listener p_listener;
 static vp_rd *p_rd[2];
 static int    p_cnt[2]; // requests written per peer
 static int    p_sserial;
@@ -891,7 +893,7 @@ p_undelivered(void)
 {
 	int n = 0;
 	for (int i = 0; i < nrq; i++)
-		n += !RQ[i].delivered;
+		n += (RQ[i].delivered == 0);
 	return n;
 }
 
@@ -967,7 +969,7 @@ p_got_request(int c, slot *s)
 		for (int i = 0; i < nrq; i++)
 			if (memcmp(RQ[i].body, nng_msg_body(s->msg), 3) == 0)
 				idx = i;
-	if (idx < 0 || RQ[idx].delivered)
+	if (idx < 0 || RQ[idx].delivered == 1)
 		vs_fail("C04:rep:request-delivery",
 		    "[%s] participant%d received %s, which is %s", seq, c,
 		    s->msg ? vh_hex(nng_msg_body(s->msg), nng_msg_len(s->msg))
@@ -1112,6 +1114,13 @@ p_send(int c)
 		consume(s);
 		n_rest++;
 		p_wire(-1, NULL, NULL, c);
+	} else if (RQ[p_cur[c]].gone) {
+		// the requester's connection is gone: the reply may be discarded
+		// (any result), it must not appear on ANY connection, and the
+		// request is consumed all the same
+		consume(s);
+		p_cur[c] = -1;
+		p_wire(-1, NULL, NULL, c);
 	} else {
 		if (s->res != 0)
 			vs_fail("C04:rep:send-error",
@@ -1148,6 +1157,38 @@ p_letter(int l)
 	case P_RECV1:
 		p_recv(l - P_RECV0);
 		break;
+	case P_DROP0:
+		// requester 0 disconnects; a new requester takes its place
+		close(p_fd[0]);
+		vs_settle();
+		for (int i = 0; i < nrq; i++)
+			if (RQ[i].peer == 0 && !RQ[i].gone) {
+				RQ[i].gone = 1;
+				if (RQ[i].delivered == 0)
+					RQ[i].delivered = 2; // may or may not come up
+			}
+		p_fd[0] = vp_attach_more(p_listener);
+		if (p_fd[0] < 0)
+			vs_fail("harness:setup", "re-attach of requester 0 failed");
+		vs_settle();
+		if (vp_handshake(p_fd[0], SP_REQ) < 0)
+			vs_fail("C04:rep:disconnect",
+			    "[%s] a new requester could not connect after the old "
+			    "one left",
+			    seq);
+		memset(p_rd[0], 0, sizeof(vp_rd));
+		p_wire(-1, NULL, NULL, 0);
+		// pending receives must not complete because of the disconnect
+		for (int c = 0; c < 2; c++)
+			if (p_pending[c] && fresh(&PT[c].rcv)) {
+				if (PT[c].rcv.res != 0)
+					vs_fail("C04:rep:disturbed",
+					    "[%s] participant%d: pending receive failed "
+					    "(%s) when a requester left",
+					    seq, c, nng_strerror(PT[c].rcv.res));
+				p_got_request(c, &PT[c].rcv);
+			}
+		break;
 	default:
 		p_send(l - P_SEND0);
 		break;
@@ -1166,6 +1207,7 @@ run_rep(void *arg)
 	p_fd[0] = vp_connect_raw(s, SP_REQ, &l);
 	if (p_fd[0] < 0)
 		vs_fail("harness:setup", "raw requester 0 could not connect");
+	p_listener = l;
 	p_fd[1] = vp_attach_more(l);
 	if (p_fd[1] < 0)
 		vs_fail("harness:setup", "raw requester 1 could not attach");
